@@ -76,7 +76,23 @@ def make_traj(tj, d="."):
     if cell:
         kw["unitcell_lengths"] = f32(cell["lengths"]).reshape(T, 3)
         kw["unitcell_angles"] = f32(cell["angles"]).reshape(T, 3)
-    t = md.Trajectory(xyz.copy(), top, time=time, **kw)
+    # how the object came to hold its time stamps (the stamps themselves are tj["time"] in every case)
+    th = tj.get("time_hist") if time is not None else None
+    if th in (None, "direct"):
+        t = md.Trajectory(xyz.copy(), top, time=time, **kw)
+    elif th == "reassign":
+        t = md.Trajectory(xyz.copy(), top, time=time + 1000.0, **kw)
+        t.time = time.copy()
+    else:                                   # built without time, time assigned afterwards
+        t = md.Trajectory(xyz.copy(), top, **kw)
+        t.time = time.copy()
+        if th == "slice":
+            t = t[:]
+        elif th == "join" and T >= 2:
+            k = T // 2
+            t = t[:k].join(t[k:])
+        elif th == "stack_slice":
+            t = t.slice(list(range(T)), copy=True)
     if not hist:
         return t
     for k, st in enumerate(hist["steps"]):
